@@ -9,7 +9,7 @@ EXTENDS Heightmap, Json, IOUtils, TLC
 Traces == JsonDeserialize(IOEnv.TRACE_FILE)
 VARIABLES tid, l, cnt
 vars == <<tid, l, cnt>>
-Clauses == {"C19_Pixel", "C19_RasterPath", "C19_RasterDrop", "C19_Sparse", "C19_SparsePath", "C19_SparseDrop"}
+Clauses == {"C19_Pixel", "C19_RasterPath", "C19_RasterDrop", "C19_Sparse", "C19_SparsePath", "C19_SparseDrop", "C19_Flat"}
 
 Holds(c, e) ==
   CASE c = "C19_Pixel" -> e.kind = "raster" => \A i \in DOMAIN e.queries : PixelOK(e, e.queries[i][1], e.queries[i][2], e.queries[i][3])
@@ -21,7 +21,14 @@ Holds(c, e) ==
                                    /\ \A j \in DOMAIN e.paths[i].pts : AbsH(e.paths[i].pts[j][3] - e.paths[i].requery[j]) <= 1
     [] c = "C19_SparseDrop" -> e.kind = "sparse" =>
          \A i \in DOMAIN e.paths : CandsOK(e.paths[i].line, e.paths[i].cand, e.tol) /\ SparseDropOK(e.paths[i].cand, e.paths[i].pts, e.tol)
-Ante(c, e) == IF c \in {"C19_Pixel", "C19_RasterPath", "C19_RasterDrop"} THEN e.kind = "raster" ELSE e.kind = "sparse"
+    \* the flat map: zero everywhere; a sampled line is its two ends at height zero
+    [] c = "C19_Flat" -> e.kind = "flat" =>
+         /\ \A i \in DOMAIN e.queries : e.queries[i][3] = 0
+         /\ \A i \in DOMAIN e.paths :
+               LET ln == e.paths[i].line  P == e.paths[i].pts IN
+               Len(P) = 2 /\ P[1] = <<ln[1], ln[2], 0>> /\ P[2] = <<ln[3], ln[4], 0>>
+Ante(c, e) == IF c \in {"C19_Pixel", "C19_RasterPath", "C19_RasterDrop"} THEN e.kind = "raster"
+              ELSE IF c = "C19_Flat" THEN e.kind = "flat" ELSE e.kind = "sparse"
 
 Init == tid \in 1..Len(Traces) /\ l = 1 /\ cnt = [c \in Clauses |-> 0]
 Step ==
